@@ -102,10 +102,13 @@ ClearQ == { <<cA>>, <<cAB, cMA>>, <<cEmp, cAB>> }
 ClearT == ClearQ \cup { <<cMA, cA, cAB>>, <<cAB, cA>> }
 MS(hdr, split, els, val) == [hdr |-> hdr, split |-> split, els |-> els, val |-> val]
 L250 == [i \in 1..250 |-> 118]
-MSetQ == { MS(0, 1000, <<A>>, X), MS(1, 3, <<A, B>>, X), MS(1, 1000, <<M, E, A>>, <<>>), MS(0, 1, <<>>, X), MS(1, 100, <<A>>, L250) }
-MSetT == MSetQ \cup { MS(1, 0, <<A>>, Y), MS(0, 4, <<A, B>>, <<>>), MS(1, 2, <<>>, Y), MS(0, 2, <<E>>, X) }
+XT == <<120, 0>>                      \* "x" sent with its terminator
+MSetQ == { MS(0, 1000, <<A>>, X), MS(1, 3, <<A, B>>, X), MS(1, 1000, <<M, E, A>>, <<>>), MS(0, 1, <<>>, X), MS(1, 100, <<A>>, L250),
+           MS(0, 1000, <<A>>, XT) }
+MSetT == MSetQ \cup { MS(1, 5, <<A, B>>, <<121, 0, 122>>), MS(1, 0, <<A>>, Y), MS(0, 4, <<A, B>>, <<>>), MS(1, 2, <<>>, Y), MS(0, 2, <<E>>, X) }
 MG(sep, split, ps) == [sep |-> sep, split |-> split, ps |-> ps]
-MGetQ == { MG(0, 1000, << <<A>> >>), MG(32, 2, << <<A>>, <<A, B>> >>), MG(0, 3, << <<M, A>>, <<A>> >>) }
+MGetQ == { MG(0, 1000, << <<A>> >>), MG(32, 2, << <<A>>, <<A, B>> >>), MG(0, 3, << <<M, A>>, <<A>> >>),
+           MG(0, 1000, << <<A>>, <<A>>, <<A>> >>) }
 MGetT == MGetQ \cup { MG(32, 1000, << <<M, E, A>> >>), MG(0, 1, << <<A, B>>, <<A>>, <<A, B>> >>), MG(32, 0, << <<A, B>> >>) }
 LK(how, where) == [how |-> how, where |-> where]
 LoadQ == { LK("root", "file"), LK("root", "dir"), LK("prefix", "file") }
@@ -128,6 +131,19 @@ FputT == {Null0, <<58, 58>>, <<46>>, <<>>}
 SKBoth == {"assign", "remove"}
 SKAssign == {"assign"}
 DecosC == {DCom}
+AllQuotes == 0..255
+BareOnly == {0}
+\* merge of a parsed text onto an existing tree: three names on one level, every order of the old elements,
+\* every text of up to three options over the same names, then single removals
+C == <<99>>
+NamesABC == <<A, B, C>>
+nC == CT!B(<<99>>)  vY == CT!B(<<121>>)
+OptABC == {nA, nB, nC}
+ValsDocY == {vY}
+RMerge == {"single", "parsenode", "nodeparse"}
+PreM  == {<<A, A>>, <<A, B>>, <<A, C>>}
+PreMT == {<<A, A>>, <<A, B>>, <<A, C>>, <<A, A, B>>, <<A, B, A>>}
+BasesA == {<<A>>}
 Bound   == Count(st) <= MaxSlots /\ nops <= MaxOps
 BoundP  == Len(pel) <= 3 /\ Len(po.buf) <= 6
 BoundPT == Len(pel) <= 4 /\ Len(po.buf) <= 8
